@@ -187,6 +187,21 @@ def regenerate(repo, outdir):
              f"def pageSize : Nat := {page}",
              f"/-- size of the `pub_info` stack buffer of Ecdh1PU::derive_key_bytes -/",
              f"def ecdh1puPubInfoCap : Nat := {m1.group(1)}", ""]
+    # postgres/provision.rs: the defaults of the four numeric connection parameters and the consumed query keys
+    pgp = read(repo, "askar-storage/src/backend/postgres/provision.rs")
+    for cname, lname in [("DEFAULT_CONNECT_TIMEOUT", "pgDefaultConnectTimeout"), ("DEFAULT_IDLE_TIMEOUT", "pgDefaultIdleTimeout"),
+                         ("DEFAULT_MIN_CONNECTIONS", "pgDefaultMinConnections"), ("DEFAULT_MAX_CONNECTIONS", "pgDefaultMaxConnections")]:
+        mm = re.search(r"const\s+" + cname + r":\s*u(?:32|64)\s*=\s*(\d+)\s*;", pgp)
+        if not mm:
+            raise RuntimeError(f"postgres/provision.rs: {cname} not found")
+        lines.append(f"def {lname} : Nat := {mm.group(1)}")
+    mnew = re.search(r"pub fn new<'a, O>\(options: O\)(.*?)\n    async fn pool", pgp, flags=re.S)
+    if not mnew:
+        raise RuntimeError("postgres/provision.rs: PostgresStoreOptions::new not found in the expected shape")
+    removed = re.findall(r'opts\.query\.remove\("([a-z_]+)"\)', mnew.group(1))
+    lines.append("/-- the query keys `PostgresStoreOptions::new` removes from the URI, in source order -/")
+    lines.append("def pgConsumedKeys : List String := [" + ", ".join(lean_str(k) for k in removed) + "]")
+    lines.append("")
     for n in need:
         text = re.sub(r"\s+", " ", consts[n]).strip()
         lines.append(f"def {n[0].lower() + re.sub(r'_(.)', lambda m: m.group(1).upper(), n[1:].lower())} : String := {lean_str(text)}")
